@@ -32,6 +32,8 @@ BOOT = {'bootstrap_sample': (0, 2), 'bootstrap_sample_pattern': (0, 1), 'bootstr
 
 
 def run(ctx, obs):
+    from ..rules import sweeps
+    sweeps.run(ctx, obs, 'C04')
     for fn in ('eval_bootstrap', 'eval_bootstrap_pattern', 'eval_bootstrap_rdm', 'eval_fixed'):
         pairing_direct(ctx, obs, EV + fn)
         model_index(ctx, obs, EV + fn)
